@@ -279,6 +279,12 @@ func (g *G) wrapTx(msgs []sdk.Msg, note string, aminoOK bool) *world.TxStep {
 	for _, m := range msgs {
 		ts.Msgs = append(ts.Msgs, world.EncodeMsg(m))
 	}
+	if g.chance("tip", g.bias("tip", 2)) {
+		// the optional AuthInfo.tip names a tipper (any account, signer or not) and an amount
+		ts.TipFrom = 1 + g.intn("tipper", world.NumAccounts)
+		ts.TipAmount = fmt.Sprintf("%d%s", 1+g.intn("tip-amt", 1000000), pick(g, "tip-denom", []string{simnet.FeeDenom, simnet.BondDenom}))
+		ts.Note += " tip-field"
+	}
 	if g.chance("tamper", g.bias("tamper", 3)) {
 		// an intermediary replaces the content of one message after the signers have signed
 		i := g.intn("tampered-msg", len(msgs))
